@@ -428,6 +428,10 @@ func matchHostnames(pattern, host string) bool {
 
 	for i, patternPart := range patternParts {
 		if i == 0 && patternPart == "*" {
+			// a wildcard stands for exactly one non-empty label
+			if len(hostParts[0]) == 0 {
+				return false
+			}
 			continue
 		}
 		if patternPart != hostParts[i] {
